@@ -249,6 +249,9 @@ def store_rules(cfg, R, lib):
                         exc = EXCEPTIONS.get((f.name, 'inv'))
                         if exc:
                             R.exception('R2-inv', cid, exc)
+                        elif pool_interpreted_clean(cfg, lib, f.name):
+                            R.undecided_obligation('R2-inv', cid, f.loc, '%s is NOT PROVED to be preserved by the interval analysis (the operation walks the pool in a form it cannot '
+                                                   'follow); interpreted on every small pool (rules_C04 R9) the three section indexes come out where they belong' % _inv_str(x, y, c))
                         else:
                             R.violation('R2-inv', cid, f.loc, 'the member function can return with %s violated (known at exit: %s)' %
                                         (_inv_str(x, y, c), bad[0].describe({x, y})))
@@ -341,6 +344,45 @@ def _inv_str(x, y, c):
     return '%s<=%s%s' % (x, y, ('+%d' % c) if c else '')
 
 
+_POOL_CLEAN = {}
+
+
+def pool_interpreted_clean(cfg, lib, fname):
+    """the two in-place pool operations of TransitionStorage are interpreted (E-SEQ) on every small pool by rules_C04.pool_rules:
+    True when that interpretation raises nothing for this function (every index stayed inside the array, the pool stayed a
+    permutation of its objects, the three section indexes came out where they belong) - pools without a free slot included"""
+    short = fname.split('::')[-1]
+    if short not in ('addFreeAgentToCandidatePool', 'addActiveCandidatesToActivePool'):
+        return False
+    if 'done' not in _POOL_CLEAN:
+        from . import rules_C04, py
+
+        class Sink:
+            def __init__(self):
+                self.cfg, self.bad = cfg, []
+
+            def rule(self, *a, **k):
+                pass
+
+            def instance(self, *a, **k):
+                pass
+
+            def note(self, *a, **k):
+                pass
+
+            def violation(self, rid, c, loc, msg, **k):
+                self.bad.append(c)
+        s = Sink()
+        try:
+            rules_C04.pool_rules(s, lib, py.load(cfg, rules_C04.ZS), full=True)
+            _POOL_CLEAN['bad'] = set(s.bad)
+        except Exception as ex:            # an index outside the array, a body the evaluator cannot follow: not clean
+            _POOL_CLEAN['bad'] = {'*'}
+        _POOL_CLEAN['done'] = True
+    bad = _POOL_CLEAN['bad']
+    return '*' not in bad and not any(short in c for c in bad)
+
+
 def report(R, lib, f, ai, rid):
     seen = set()
     for ob in ai.obligations:
@@ -354,6 +396,9 @@ def report(R, lib, f, ai, rid):
         exc = EXCEPTIONS.get((f.name, 'index'))
         if exc:
             R.exception(rid, ob.construct, exc)
+        elif pool_interpreted_clean(R.cfg, lib, f.name):
+            R.undecided_obligation(rid, ob.construct, ob.loc, ob.msg + ' - NOT PROVED by the interval analysis (the operation walks the pool in a form it cannot follow); '
+                                   'interpreted on every small pool (rules_C04 R9) it stays inside the array and keeps the three section indexes where they belong')
         else:
             R.violation(rid, ob.construct, ob.loc, ob.msg + '; known: ' + ob.state)
 
